@@ -43,8 +43,29 @@ def polylines(nmax):
     return out[:nmax]
 
 
+def selfcrossing():
+    """3-segment polylines on {0,1,2}^2 whose first and last segment cross transversally, each with probe segments through
+    the double point: two true pairs then share one parameter of the probe"""
+    pts = [(x, y) for x in range(3) for y in range(3)]
+    out = []
+    for combo in itertools.product(pts, repeat=4):
+        if any(combo[i] == combo[i + 1] for i in range(3)):
+            continue
+        k, st = geom.classify_segments((combo[0], combo[1]), (combo[2], combo[3]))
+        if k != "cross":
+            continue
+        X = (combo[0][0] + (combo[1][0] - combo[0][0]) * st[0], combo[0][1] + (combo[1][1] - combo[0][1]) * st[0])
+        for d in ((1, 0), (0, 1), (1, 2), (2, -1)):
+            B = ((X[0] - d[0] * F(1, 4), X[1] - d[1] * F(1, 4)), (X[0] + d[0] * F(1, 4), X[1] + d[1] * F(1, 4)))
+            out.append((combo, B))
+    return out[::7]
+
+
 def cases(tier, seed):
     b = bounds(tier, seed)
+    sc = selfcrossing()
+    for i in range(0, len(sc), 8):
+        yield ("selfcross", 0, i, 0)
     segs = segments(b["grid"])
     for i in range(len(segs)):
         yield ("seg", b["grid"], i, 0)
@@ -58,6 +79,8 @@ def cases(tier, seed):
 def describe(case):
     if case[0] == "seg":
         return {"segment_A": segments(case[1])[case[2]], "against": "every segment of the grid, both parameter intervals"}
+    if case[0] == "selfcross":
+        return {"self_crossing_polylines_from_index": case[2]}
     if case[0] == "poly":
         return {"polyline_A": polylines(case[1])[case[2]], "against": "a fixed family of segments"}
     return {"fixed_pair": FIXED[case[2]][0]}
@@ -165,6 +188,19 @@ def run_case(case, res):
                 if k != "disjoint" or boxes:
                     res.nontriv((A, B, ib))
                 check_pairs(res, ca, cb, k, crossings, f"segment {A} on {ia} x segment {B} on {ib}", tags, True)
+        return res.observe(sorted(res.outcomes.items()))
+    if kind == "selfcross":
+        knots = [F(0), F(1), F(2), F(3)]
+        for pts, B in selfcrossing()[case[2]:case[2] + 8]:
+            k, crossings = geom.classify_polylines(knots, pts, [F(1), F(3)], B)
+            ca = poly_curve(pts, knots)
+            cb = seg_curve(tuple(tuple(float(c) for c in p) for p in B), (1, 3))
+            res.state((pts, B))
+            res.nontriv((pts, B))
+            tags = dict(shape="selfcrossing_polyline", cls=k, boxes=True)
+            where = f"self-crossing polyline {pts} x segment {tuple(tuple(str(c) for c in p) for p in B)} on [1,3]"
+            check_pairs(res, ca, cb, k, crossings, where, tags, True)
+            check_pairs(res, cb, ca, k, [(u, t) for t, u in crossings], where + " (swapped)", tags, True)
         return res.observe(sorted(res.outcomes.items()))
     if kind == "poly":
         pts = polylines(case[1])[case[2]]
